@@ -348,6 +348,35 @@ class Run:
             if b is not ref[-1 - i]:
                 raise Violation("F:negative-index", "-", f"g{gid}[{-1 - i}] is {names([b])} but reference {order}")
         self.bump("f_index_reads", 2 * L)
+        # the descriptive accessors of Graph/Function describe the same sequence
+        if callable(getattr(c, "num_nodes", None)):
+            got = guarded("num_nodes", lambda: c.num_nodes())
+            if got != L:
+                raise Violation("F:num_nodes", "-", f"g{gid}.num_nodes()={got}, reference sequence {order} has {L}")
+            self.bump("f_num_nodes_reads")
+        if callable(getattr(c, "node", None)) and L:
+            i = self.t % L
+            a = guarded("node(index)", lambda: c.node(i))
+            if a is not ref[i]:
+                raise Violation("F:node(index)", "-", f"g{gid}.node({i}) is {names([a])} but reference {order}")
+            name = ref[i].name
+            if isinstance(name, str):
+                first = next(x for x in ref if x.name == name)
+                b = guarded("node(name)", lambda: c.node(name))
+                if b is not first:
+                    raise Violation("F:node(name)", "-", f"g{gid}.node({name!r}) is {names([b])}, the first node of that name "
+                                                         f"in the reference sequence {order} is {names([first])}")
+            gone = "vf-no-such-node-name"
+            WD.count = 0
+            try:
+                x = c.node(gone)
+            except LoopDetected as e:
+                raise Violation("L1a:nontermination|node(name)", "-", f"g{gid}.node({gone!r}): {e}") from None
+            except Exception:  # noqa: BLE001 - any exception type is accepted for "not found"
+                pass
+            else:
+                raise Violation("F:node(name)-absent-accepted", "-", f"g{gid}.node({gone!r}) returned {names([x])}")
+            self.bump("f_node_accessor_reads", 3)
         for bad in (L, -L - 1):
             WD.count = 0
             try:
